@@ -185,6 +185,7 @@ type H struct {
 	NoMon    bool
 	NoRest   bool
 	Purges   []*Ctl
+	Adapters []*Adapter
 	QCloses  []*Ctl
 	Notes    []string
 	inCall   map[int]string // thread id -> API operation in progress
@@ -742,6 +743,15 @@ func (w *W) WaitUntilFinished() {
 func (w *W) TunePool(n int) error {
 	c := w.h.ctlCall(w, "TunePool", n)
 	old := w.Limits[len(w.Limits)-1].Val
+	// From the call on the new value may already be in effect (the library stores it before it returns), and
+	// until the return the old one still counts: record max(old, new) for the window [call, ret] now. For
+	// n < 1 the value (NumCPU) is only known afterwards; until then no finite bound is assumed.
+	during := n
+	if n < 1 {
+		during = 1 << 20
+	}
+	idx := len(w.Limits)
+	w.Limits = append(w.Limits, LimitChange{Seq: c.Call, Val: max(old, during)})
 	err := w.Wk.TunePool(n)
 	if err == nil && !vrt.RaceMode {
 		// how many dispatched jobs are unfinished at the return: the getter's view, but never less than what
@@ -755,8 +765,11 @@ func (w *W) TunePool(n int) error {
 		if eff < 1 {
 			eff = w.Wk.NumConcurrency()
 		}
-		// both the old and the new value count as "in effect" during [call, ret]
-		w.Limits = append(w.Limits, LimitChange{Seq: c.Call, Val: max(old, eff)}, LimitChange{Seq: w.h.seq + 1, Val: eff})
+		w.Limits[idx].Val = max(old, eff)
+		w.Limits = append(w.Limits, LimitChange{Seq: w.h.seq + 1, Val: eff})
+	} else {
+		// refused: nothing was stored, the old limit was in effect throughout
+		w.Limits[idx].Val = old
 	}
 	return w.h.ctlRet(c, err)
 }
@@ -895,7 +908,9 @@ type Adapter struct {
 }
 
 func (h *H) NewAdapter(prio bool) *Adapter {
-	return &Adapter{h: h, prio: prio, unacked: map[string]adItem{}, AckCount: map[string]int{}}
+	a := &Adapter{h: h, prio: prio, unacked: map[string]adItem{}, AckCount: map[string]int{}}
+	h.Adapters = append(h.Adapters, a)
+	return a
 }
 
 func (a *Adapter) fault(op string) bool {
